@@ -28,7 +28,7 @@ NONTRIVIAL = {
     "C01": lambda r: r["cnt"]["open"] > 0 and r["posOK"],
     "C02": lambda r: r["clean"] and r["n"] > 10,
     "C03": lambda r: (r["cnt"]["closeMove"] + r["cnt"]["closeOff"]) > 0 and r["sc03"],
-    "C04": lambda r: r["cnt"]["c04b"] > 0 and r["scE"] and r["cnt"]["open"] > 0,
+    "C04": lambda r: r["cnt"]["c04b"] > 0 and r["scM"] and r["cnt"]["open"] > 0,
     "C05": lambda r: r["scE"] and r["cnt"]["open"] > 0,
     "C06": lambda r: r["cnt"]["defer"] > 0,
     "C07": lambda r: (r["cnt"]["closeMove"] + r["cnt"]["closeOff"]) > 0,
